@@ -635,6 +635,14 @@ func (p *Prog) returnedFuncs(fi *FuncInfo) []returnedFn {
 					out = append(out, returnedFn{res, pos, v})
 				}
 			}
+		case *ast.CallExpr:
+			// built by a function of the module that returns the function value: terminated(slices.Values(ds))
+			if h := p.staticCallee(fi.Pkg, v); h != nil && h != fi && h.Decl != nil && h.Decl.Body != nil && h.Pkg == fi.Pkg {
+				for _, inner := range p.returnedFuncs(h) {
+					n++
+					out = append(out, inner)
+				}
+			}
 		}
 		return true
 	})
